@@ -4,7 +4,7 @@
    Subject priority: Subject.v (get_subject_hierarchy_map, sort_policies_by_subject_hierarchy) — proofs in
    SubjectProofs.v.  The decision over the stored order is C01's model of the rule loop. *)
 From Coq Require Import List NArith Bool Arith Permutation Sorted.
-From PyCasbin Require Import Base Effect Enforce Policy PolicyProofs EnforceProofs PriorityProofs Subject SubjectProofs.
+From PyCasbin Require Import Base Effect Enforce Policy PolicyProofs EnforceProofs PriorityProofs PriorityRefine Subject SubjectProofs.
 Import ListNotations.
 
 (* ---------------- explicit priority ---------------- *)
@@ -55,6 +55,44 @@ Print Assumptions C07_remove_keeps_order.
 Theorem C07_update_keeps_order : forall pi l o n, key pi n = key pi o -> psorted pi l -> psorted pi (replace_rule o n l).
 Proof. exact update_keeps_sorted. Qed.
 Print Assumptions C07_update_keeps_order.
+
+(* THE PROPERTY IN ONE LINE, as a refinement: after ANY sequence of single or batch adds, removes (single,
+   batch, filtered) and updates (single, batch) on a loaded priority model, the stored rules are exactly the
+   STABLE SORT by numeric priority (Python's sorted(), sort_rules) of the rules in ARRIVAL order — i.e. of
+   the store that the same history yields when every add simply appends (astep: add_policy / add_policies
+   without priority column; removes, filtered removes and in-place updates refusing a priority change as in
+   the priority store).  Hence ascending priority AND equal priorities in arrival order, for every history. *)
+Theorem C07_store_is_stable_sort_of_arrival : forall pi ops l0,
+  NoDup l0 -> all_keys pi l0 -> Forall (sop_keys pi) ops ->
+  fold_left (pstep pi) ops (sort_rules pi l0) = sort_rules pi (fold_left (astep pi) ops l0).
+Proof. exact priority_store_is_sorted_arrival. Qed.
+Print Assumptions C07_store_is_stable_sort_of_arrival.
+
+(* ... at every step of the history, not only at its end *)
+Theorem C07_store_is_stable_sort_of_arrival_at_every_step : forall pi ops l0,
+  NoDup l0 -> all_keys pi l0 -> Forall (sop_keys pi) ops ->
+  forall n, fold_left (pstep pi) (firstn n ops) (sort_rules pi l0)
+            = sort_rules pi (fold_left (astep pi) (firstn n ops) l0).
+Proof. exact priority_store_is_sorted_arrival_at_every_step. Qed.
+Print Assumptions C07_store_is_stable_sort_of_arrival_at_every_step.
+
+(* ... and from an empty model *)
+Theorem C07_store_from_empty_is_stable_sort_of_arrival : forall pi ops, Forall (sop_keys pi) ops ->
+  fold_left (pstep pi) ops [] = sort_rules pi (fold_left (astep pi) ops []).
+Proof. exact priority_store_from_empty. Qed.
+Print Assumptions C07_store_from_empty_is_stable_sort_of_arrival.
+
+(* the arrival list stays duplicate-free and every rule in it has a priority field *)
+Theorem C07_arrival_list_invariant : forall pi ops l,
+  AI pi l -> Forall (sop_keys pi) ops -> AI pi (fold_left (astep pi) ops l).
+Proof. exact arrival_history_keeps_AI. Qed.
+Print Assumptions C07_arrival_list_invariant.
+
+(* a stable sort is unique: two priority-sorted lists with the same per-priority subsequences are equal *)
+Theorem C07_stable_sort_unique : forall pi a b, psorted pi a -> psorted pi b ->
+  (forall k, filter (fun x => N.eqb (key pi x) k) a = filter (fun x => N.eqb (key pi x) k) b) -> a = b.
+Proof. exact stable_sort_unique. Qed.
+Print Assumptions C07_stable_sort_unique.
 
 (* the decision is the effect of the first rule in stored order that matches with a definite effect, else deny
    (priority effector; outcomes without evaluation errors; same theorem as C01's, instantiated) *)
@@ -119,6 +157,25 @@ Example C07_example_history :
   fold_left (pstep 0) [SAdd [2;14]%N; SAddMany [[1;15]%N; [5;16]%N]; SUpdate [2;11]%N [2;17]%N; SRemove [1;13]%N] l0
   = [[1;15]; [2;17]; [2;12]; [2;14]; [5;10]; [5;16]]%N.
 Proof. vm_compute. split; reflexivity. Qed.
+
+(* the refinement on a history of 10 operations using every constructor (column 0 is the priority): batch
+   add, in-place updates, single / batch / filtered removes, a refused priority change ([2;17] -> [3;17]) and a
+   re-add of a rule name introduced by a batch update; the arrival list is NOT sorted, the store is its
+   stable sort ([1;15] before [1;20], [2;17] before [2;18]) *)
+Example C07_example_refinement :
+  let l0 := [[5;10]; [2;11]; [2;12]; [1;13]]%N in
+  let ops := [SAdd [2;14]%N; SAddMany [[1;15]%N; [5;16]%N]; SUpdate [2;11]%N [2;17]%N; SRemove [1;13]%N;
+              SRemoveMany [[5;10]%N]; SRemoveFiltered 1 [12%N];
+              SUpdateMany [[2;14]%N; [5;16]%N] [[2;18]%N; [5;19]%N];
+              SAdd [1;20]%N; SUpdate [2;17]%N [3;17]%N; SAdd [2;18]%N] in
+  NoDup l0 /\ all_keys 0 l0 /\ Forall (sop_keys 0) ops /\
+  fold_left (astep 0) ops l0 = [[2;17]; [2;18]; [1;15]; [5;19]; [1;20]]%N /\
+  fold_left (pstep 0) ops (sort_rules 0 l0) = [[1;15]; [1;20]; [2;17]; [2;18]; [5;19]]%N /\
+  sort_rules 0 (fold_left (astep 0) ops l0) = [[1;15]; [1;20]; [2;17]; [2;18]; [5;19]]%N.
+Proof.
+  cbv zeta. split; [repeat constructor; cbn; intuition discriminate|].
+  split; [repeat constructor|]. split; [repeat constructor|]. vm_compute. repeat split; reflexivity.
+Qed.
 
 (* subject priority: alice -> admin -> root, bob -> root in the default domain; rules arrive root, admin, alice,
    bob: after the sort alice and bob (level 0) come first in arrival order, then admin, then root *)
